@@ -45,14 +45,17 @@ static void *verif_qb_rb_chunk_alloc(qb_ringbuffer_t *rb, size_t len)
 static int32_t verif_qb_rb_chunk_commit(qb_ringbuffer_t *rb, size_t len) { g_commit_calls++; g_committed = len; return 0; }
 static void verif_qb_rb_close(qb_ringbuffer_t *rb) { g_close_calls++; }
 static size_t verif_strlen(const char *s) { return g_fn_len; }
+static size_t g_ser1_max, g_ser1_len, g_ser2_len; static const char *g_ser1_fmt, *g_ser2_fmt;
 static size_t verif_qb_vsnprintf_serialize(char *serialize, size_t max_len, const char *fmt, va_list ap)
 {
 	VERIF_ND(size_t, nd_ser_len);
 	g_ser_calls++;
+	if (g_ser_calls == 1) { g_ser1_max = max_len; g_ser1_fmt = fmt; } else { g_ser2_fmt = fmt; }
 	/* the serializer may write anywhere in [serialize, serialize + max_len): that range must be reserved */
 	POST(max_len == 0 || __CPROVER_w_ok(serialize, max_len), "the serializer is offered only room that was reserved for the record");
 	ASSUME(nd_ser_len <= max_len);
 	if (nd_ser_len > 0) { serialize[nd_ser_len - 1] = 0; }
+	if (g_ser_calls == 1) { g_ser1_len = nd_ser_len; } else { g_ser2_len = nd_ser_len; }
 	return nd_ser_len;
 }
 #define qb_log_target_get verif_qb_log_target_get
@@ -86,7 +89,7 @@ void harness(void)
 	g_ring.shared_hdr = &g_ring_hdr;
 	g_target.instance = &g_ring;
 	g_target.max_line_length = nd_max_line;
-	g_alloc_calls = 0; g_commit_calls = 0; g_close_calls = 0; g_ser_calls = 0; g_reserved = 0; g_committed = 0; g_area = NULL;
+	g_alloc_calls = 0; g_commit_calls = 0; g_close_calls = 0; g_ser_calls = 0; g_ser1_max = 0; g_ser1_len = 0; g_ser2_len = 0; g_ser1_fmt = NULL; g_ser2_fmt = NULL; g_reserved = 0; g_committed = 0; g_area = NULL;
 	verif_memcpy_wit = 0;
 
 	call_vlogger(&cs, &ts, "x");
@@ -100,6 +103,14 @@ void harness(void)
 		POST(g_commit_calls == 1, "a stored record is committed exactly once");
 		POST(g_committed <= g_reserved, "the committed length never exceeds the reservation");
 		POST(g_committed >= hdr, "the committed length covers the record header");
+		POST(g_ser1_max == nd_max_line && g_ser1_fmt == cs.format, "the message is encoded under the target's line limit");
+		if (g_ser1_len >= nd_max_line) {
+			/* the encoder reports the limit itself when the message did not fit (C14 units) */
+			POST(g_ser_calls == 2 && g_ser2_fmt != cs.format, "a message that does not fit the line limit is replaced by the fixed notice, never stored as a cut-off encoding (a cut-off record is decoded with arguments taken from beyond it)");
+			POST(g_committed == hdr + g_ser2_len, "the record's length is its header plus the encoding that was stored");
+		} else {
+			POST(g_ser_calls == 1 && g_committed == hdr + g_ser1_len, "the record's length is its header plus the encoding that was stored");
+		}
 	} else {
 		COVER(1);
 		POST(g_commit_calls == 0, "nothing is committed when the reservation fails");
